@@ -412,3 +412,91 @@ func TestC06Race(t *testing.T) {
 		Rule: "free-running variant of TestC06Sched under the Go race detector: real goroutines, drawn Gosched/sleep jitter at every row-store access, 3 engines; same linearizability oracle (logical stamps from an atomic counter); a race report or fatal runtime error kills the shard and is reported with the running case; non-trivial = two writes of different clients overlapped",
 		Gen:  genConc(bt.Engines, true), Run: runC06Race}.Main(t)
 }
+
+// ---------------------------------------------------------------- exhaustive schedules for op pairs
+
+func c06PairOps(w int) []bt.Op {
+	tag := bt.BS(fmt.Sprintf("w%d", w))
+	return []bt.Op{
+		{K: "MutateRow", Table: tbl, Key: "r1", Muts: []bt.Mut{{K: "set", Fam: "f", Qual: "a", TS: 1000, Val: tag}, {K: "set", Fam: "f", Qual: "b", TS: 1000, Val: tag}}},
+		{K: "MutateRow", Table: tbl, Key: "r1", Muts: []bt.Mut{{K: "delrow"}, {K: "set", Fam: "f", Qual: "a", TS: 1000, Val: tag}, {K: "set", Fam: "g", Qual: "c", TS: 1000, Val: tag}}},
+		{K: "RMW", Table: tbl, Key: "r1", Rules: []bt.RMWRule{{Fam: "f", Qual: "cnt", Inc: true, Amount: 1}}},
+		{K: "RMW", Table: tbl, Key: "r1", Rules: []bt.RMWRule{{Fam: "f", Qual: "cnt", Inc: true, Amount: 1}, {Fam: "g", Qual: "log", Append: tag}}},
+		{K: "CheckAndMutate", Table: tbl, Key: "r1", Pred: &bt.Filter{K: "colrange", Fam: "f", S: bt.Bound{K: 2, V: "owner"}, E: bt.Bound{K: 2, V: "owner"}},
+			FMuts: []bt.Mut{{K: "set", Fam: "f", Qual: "owner", TS: 1000, Val: tag}}},
+		{K: "CheckAndMutate", Table: tbl, Key: "r1", TMuts: []bt.Mut{{K: "set", Fam: "g", Qual: "t", TS: 1000, Val: tag}}, FMuts: []bt.Mut{{K: "set", Fam: "g", Qual: "f", TS: 1000, Val: tag}}},
+		{K: "ReadRow", Table: tbl, Key: "r1"},
+		{K: "MutateRows", Table: tbl, Entries: []bt.Entry{
+			{Key: "r1", Muts: []bt.Mut{{K: "set", Fam: "f", Qual: "a", TS: 1000, Val: tag}, {K: "set", Fam: "f", Qual: "b", TS: 1000, Val: tag}}},
+			{Key: "r2", Muts: []bt.Mut{{K: "set", Fam: "f", Qual: "a", TS: 1000, Val: tag}}}}},
+	}
+}
+
+func TestC06Enum(t *testing.T) {
+	p := vt.Prop[ConcCase]{ID: "C06", Test: "TestC06Enum",
+		Rule: "stateless DFS (re-execution) over ALL schedules of 2 clients x 1 request for every ordered pair of 8 request shapes on one row (two multi-mutation MutateRow forms, increment, increment+append, set-if-absent CheckAndMutate, predicate-less CheckAndMutate, read, two-row MutateRows) x {empty row, initialised row} x {btree, leveldb-mem}: 256 configurations; yield points at every row-store access, blocking detected from wait states; per-row linearizability of the history (porcupine); thorough = all configurations, quick = those with index mod 4 == VERIF_SEED mod 4; non-trivial = a request parked between its row read and its write-back while the other was granted a step",
+		Run:  runC06Sched}
+	if vt.Replay() != "" {
+		p.Gen = rapid.Just(ConcCase{})
+		p.Main(t)
+		return
+	}
+	ev := vt.NewEv(p.ID, p.Test, p.Rule)
+	defer ev.Flush()
+	a, b := c06PairOps(0), c06PairOps(1)
+	type cfg struct {
+		engine string
+		init   bool
+		i, j   int
+	}
+	var cfgs []cfg
+	for _, e := range []string{"btree", "leveldb-mem"} {
+		for _, in := range []bool{false, true} {
+			for i := range a {
+				for j := range b {
+					cfgs = append(cfgs, cfg{e, in, i, j})
+				}
+			}
+		}
+	}
+	stride, offset := 4, int(vt.Seed()%4)
+	if vt.Thorough() {
+		stride, offset = 1, 0
+	}
+	exhaustive := true
+	for ci := offset; ci < len(cfgs); ci += stride {
+		if (ci/stride)%vt.NShards() != vt.Shard() {
+			continue
+		}
+		cf := cfgs[ci]
+		base := ConcCase{Engine: cf.engine, Workers: [][]bt.Op{{a[cf.i]}, {b[cf.j]}}}
+		if cf.init {
+			base.Init = []bt.Op{{K: "MutateRow", Table: tbl, Key: "r1", Muts: []bt.Mut{{K: "set", Fam: "f", Qual: "a", TS: 1000, Val: "init"}, {K: "set", Fam: "f", Qual: "b", TS: 1000, Val: "init"}}}}
+		}
+		d := sched.NewDFS(-1)
+		n := 0
+		for d.Next() {
+			c := base
+			st, choices, mis := runConc("C06", &c, d)
+			if strings.HasPrefix(mis, "HARNESS:") {
+				t.Fatalf("%s", mis)
+			}
+			c.Choices = choices
+			if mis != "" {
+				f := &vt.Failure{Property: "C06", Msg: fmt.Sprintf("config #%d (%s, ops %d x %d, init=%v), schedule %d: %s", ci, cf.engine, cf.i, cf.j, cf.init, n, mis)}
+				vt.WriteFail(p.Test, c, f)
+				t.Fatalf("%s", f.Msg)
+			}
+			n++
+			ev.Case(c, st.heldInWindow, fmt.Sprintf("engine=%s", cf.engine))
+			if n >= 3000 {
+				exhaustive = false
+				break
+			}
+		}
+		ev.Add("configurations", 1)
+	}
+	if exhaustive && vt.Thorough() {
+		ev.Exhaustive(int64(len(cfgs)))
+	}
+}
